@@ -304,13 +304,19 @@ def procProps : List String := ["C02", "C03", "C04", "C05", "C10", "C11", "C12",
 /-- answer = model observation, verdicts on the implementation's observation (all that apply),
 verdicts on the model's own observation that are not ok (tripwire: must print `-`) -/
 def answer (m : String) (judge : String → Option (List (String × Spec.Verdict))) (impl : Option String) : String :=
-  let mv := match judge m with
-    | some vs => showVerdicts vs true
-    | none => "unparsed"
   match impl with
-  | none => s!"{m} ## I:- M:{mv}"
+  | none =>
+    let mv := match judge m with
+      | some vs => showVerdicts vs true
+      | none => "unparsed"
+    s!"{m} ## I:- M:{mv}"
   | some o =>
     let iv := match judge o with
+      | some vs => showVerdicts vs true
+      | none => "unparsed"
+    -- identical observations get identical verdicts: judge once
+    let mv := if o == m then iv else
+      match judge m with
       | some vs => showVerdicts vs true
       | none => "unparsed"
     s!"{m} ## I:{iv} M:{mv}"
@@ -361,6 +367,17 @@ def procSweep (c : Ctx) (p : Bytes) (i j : Nat) (buf : Bytes) : Ctx × String :=
       h := fnv h s!"{showProc r} | {hexBytes b'} | {showEids c'}"
   return (c, s!"sweep {h.toNat} {nok} {nerr} {npanic}")
 
+/-- the property whose verdicts are wanted (`prop Cnn` line); `none` = all -/
+def activeProp (st : St) : Option String :=
+  match st.find? (fun e => e.1.startsWith "__prop__") with
+  | some e => some ((e.1.drop 8).toString)
+  | none => none
+
+def keepProps (st : St) (ps : List String) : List String :=
+  match activeProp st with
+  | some p => ps.filter (· == p)
+  | none => ps
+
 def handle (st : St) (line : String) : St × String :=
   let (opPart, impl) : String × Option String :=
     match line.splitOn " => " with
@@ -368,6 +385,8 @@ def handle (st : St) (line : String) : St × String :=
     | _ => (line, none)
   let tk := toks opPart
   match tk with
+  | ["prop", name] =>
+    ((s!"__prop__{name}", ⟨Ctx.new 0 [] [], Spec.SpecSt.new 0 [] []⟩) :: st.filter (fun e => !e.1.startsWith "__prop__"), "ok")
   | ["ctx", id, addr, types, vendors] =>
     match parseByte addr, parseBytes types, parseVendors vendors with
     | some a, some t, some v => (st.put id ⟨Ctx.new a t v, Spec.SpecSt.new a t v⟩, "ok")
@@ -377,7 +396,7 @@ def handle (st : St) (line : String) : St × String :=
     | some p =>
       let m := showDec (decode p)
       let judge := fun (o : String) => (parseDecObs (toks o)).map fun (d, outside) =>
-        decProps.map fun pr => (pr, Spec.judgeDec pr p d outside)
+        (keepProps st decProps).map fun pr => (pr, Spec.judgeDec pr p d outside)
       (st, answer m judge impl)
     | none => (st, "bad-op")
   | "rtdec" :: _recv :: id :: _dst :: name :: rest =>
@@ -398,7 +417,7 @@ def handle (st : St) (line : String) : St × String :=
     | some p =>
       let m := showLen (getLength p)
       let judge := fun (o : String) => (parseLenObs (toks o)).map fun d =>
-        lenProps.map fun pr => (pr, Spec.judgeLen pr p d)
+        (keepProps st lenProps).map fun pr => (pr, Spec.judgeLen pr p d)
       (st, answer m judge impl)
     | none => (st, "bad-op")
   | ["proc", id, pkt, buf] =>
@@ -407,7 +426,7 @@ def handle (st : St) (line : String) : St × String :=
       let (c', r, b') := process c.model p b
       let m := s!"{showProc r} | {hexBytes b'} | {showEids c'}"
       let judge := fun (o : String) => (parseProcObs o).map fun (res, outside, ob, oe) =>
-        procProps.map fun pr => (pr, Spec.judgeProc pr c.spec p b res outside ob oe)
+        (keepProps st procProps).map fun pr => (pr, Spec.judgeProc pr c.spec p b res outside ob oe)
       (st.put id ⟨c', c.spec.step (.process p b)⟩, answer m judge impl)
     | _, _, _ => (st, "bad-op")
   | ["seteid", id, which, e] =>
@@ -440,7 +459,7 @@ def handle (st : St) (line : String) : St × String :=
       | some e, some b =>
         let m := showEnc (encode c.model d e b) b
         let judge := fun (o : String) => (parseEncObs (toks o)).map fun (eo, eb) =>
-          encProps.map fun pr => (pr, Spec.judgeEnc pr c.spec d e b eo eb)
+          (keepProps st encProps).map fun pr => (pr, Spec.judgeEnc pr c.spec d e b eo eb)
         (st, answer m judge impl)
       | _, _ => (st, "bad-op")
     | _, _, _ => (st, "bad-op")
